@@ -8,6 +8,7 @@
     TreeDrop      flatten / dropLevel: result well formed, leaves unchanged
     TreeRecords   fromRecordsRaw characterised by the records
     TreePaths     root-to-leaf paths of the built tree = the records
+    TreeCells     dropCells (to_str(drop_cells=True)); flatten after drop = flatten
     TreeCommute   dropLevel ∘ fromRecords ≈ fromRecords on the erased column (C17's tree lemma)
   and glues the model's `leafPairs` to `crossPairs`.
 -/
@@ -19,6 +20,7 @@ import CTM.Lemmas.TreeDrop
 import CTM.Lemmas.TreeRecords
 import CTM.Lemmas.TreePaths
 import CTM.Lemmas.TreeCommute
+import CTM.Lemmas.TreeCells
 namespace CTM.RawTree
 variable {t : RawTree}
 
